@@ -6,6 +6,12 @@ baseline = json.load(open('/root/.vp/BASELINE.json'))["cmd"]
 TB = ("trusted: go/ssa (x/tools v0.29.0) as the meaning of the source; the gocv VC generator; z3 5.1/4.8.12, cvc5; "
       "partial correctness modulo panics unless the contract says nopanic; sequential execution inside a function. ")
 claimed = {
+ "C02": dict(
+   text=("One mode-parity mechanism is under contract: the address the timing coalescer uses for a FLAT/GLOBAL access (defaultCoalescer.readFlatAddr) equals, for every instruction, lane and register contents, "
+         "base + sign-extended 13-bit offset with base = the 64-bit VGPR pair or scalar base + zero-extended 32-bit VGPR in SADDR mode, which is the formula of emu.ALUImpl.flatAddrWithScalar and of the ISA. "
+         "The execution units share the emulator's ALU by construction (cu.Builder). Not under contract: lane-ID and SGPR initialisation parity (initWfRegs vs initRegisters), load write-back, scalar loads through the memory system, LDS binding, cache flush before copies."),
+   note=(TB + "The emulator-side formula is transcribed into the contract, not mechanically extracted (the emulator's state interface is modelled differently under C03). Whole-program equivalence of the two modes needs program-level reasoning outside this technique."),
+   design="5 (C02)", technique="deductive verification: WP-style VC generation over go/ssa + SMT (return-site obligation)"),
  "C03": dict(
    text=("Every scalar ALU handler of both ALUs (SOP1, SOP2, SOPC, SOPK, SOPP branches; 116 handlers) is verified against an ISA table "
          "transcribed from the GCN3 manual: for all operand descriptors the decoder can produce and all values of the operands, SCC, VCC, EXEC, PC, "
@@ -136,6 +142,7 @@ claimed = {
    design="5 (C18)", technique="deductive verification: WP-style VC generation over go/ssa + SMT (integer mode with overflow obligations, call-site obligations)"),
 }
 reasons = {
+ "C05": "determinism of a run is a property of goroutine schedules, Go map iteration order and process-global state across simulations; no pre/postcondition on a function of the repository states it, and the contract-reachable fragments (no map-range on an event path, no package-level mutable state) are syntactic rules rather than obligations a deductive verifier discharges",
  "C01": "subject is GPU machine code vs a host reference over the whole platform matrix; no contract on a Go function states it (its contract-reachable mechanisms are claimed under C03/C04/C06/C07/C08/C11/C13)",
 }
 checks = []
